@@ -108,7 +108,7 @@ def generate(seed, tier):
                 batches.append([size, "row" if size == 1 and rng.random() < 0.7 else "rows"])
                 remaining -= size
         return {"io": simfs.IoConfig.draw(swarm), "producer": "writer", "table": table,
-                "use_write_rows": style == "rows", "batches": batches}
+                "use_write_rows": style == "rows", "batches": batches, "rows_as_iterator": swarm.random() < 0.5}
     sheets = []
     for _ in range(swarm.randint(1, 3)):
         sheets.append([[draw_cell(rng) for _ in range(rng.randint(0, 5))] for _ in range(rng.randint(0, 5))])
@@ -167,7 +167,8 @@ def execute(scenario):
                     for row in given[position:]:
                         writer.write_row(row)
                 elif scenario.get("use_write_rows"):
-                    writer.write_rows(given)
+                    # any iterable of rows will do, also one that can be iterated only once
+                    writer.write_rows(iter(given) if scenario.get("rows_as_iterator") else given)
                 else:
                     for row in given:
                         writer.write_row(row)
